@@ -202,10 +202,15 @@ def r1_commits(program, rep):
                 "subtract_resources(%s[%s], %s[%s])" % (
                     mach, unparse(lexp), vres, unparse(vexp)),
                 mode="eval").body, node))
+            vague = False
             for t, p in T.all_facts(node):
                 if not p and _is_call(plain(t), "overallocated") and \
-                        len(t[2]) == 1 and plain(t[2][0]) == want_t:
-                    ok = True
+                        len(t[2]) == 1:
+                    if plain(t[2][0]) == want_t:
+                        ok = True
+                    elif any(x[0] in ("mu", "phi", "rec", "opaque")
+                             for x in subterms(t[2][0])):
+                        vague = True
             # (b) in the interpreter's equality domain
             for c, p, a in ([] if ok else fl.facts(node)):
                 if p or not (isinstance(c, ast.Call) and
@@ -215,6 +220,15 @@ def r1_commits(program, rep):
                 x = it.sym(c.args[0], inode)
                 if it.holds_at(inode, eq(x, want)):
                     ok = True
+            if not ok and vague:
+                # a capacity test is there, on a value carried round a loop
+                # that neither the terms nor the equality domain relate to
+                # the chip and vertex committed
+                raise AnalysisError("%s: the value tested for over-"
+                                    "allocation before [%s] = %s is carried "
+                                    "through a loop in a form these rules "
+                                    "cannot relate to that chip and vertex"
+                                    % (name, unparse(vexp), unparse(lexp)))
             rep.check(ok, "C02-R1", inst, "placing a movable vertex is "
                       "dominated by 'not overallocated(x)' with x = "
                       "machine[loc] - vertices_resources[v] for the very loc "
